@@ -43,6 +43,9 @@ class Z3Ctx:
             cs.append(self.expr(r) == 0)
         for n in self.alg.nonneg:
             cs.append(self.zv(n) >= 0)
+        for n, f in self.alg.sign.items():
+            v = self.zv(n)
+            cs.append({"pos": v > 0, "nonneg": v >= 0, "neg": v < 0, "nonpos": v <= 0}[f])
         # trig generators are bounded
         for (sn, cn) in self.alg.trig_gens:
             cs.append(self.zv(sn) >= -1)
